@@ -74,7 +74,25 @@ import os as _os
 TRACE = bool(_os.environ.get("PYVC_TRACE"))
 
 
+_HQ_PROBE = None
+
+
 def _has_quant(e):
+    """does the formula contain a quantifier / lambda?  (z3's own probe: C side, no python traversal)"""
+    global _HQ_PROBE
+    try:
+        if z3.is_bool(e):
+            if _HQ_PROBE is None:
+                _HQ_PROBE = z3.Probe("has-quantifiers")
+            g = z3.Goal()
+            g.add(e)
+            return _HQ_PROBE(g) != 0
+    except z3.Z3Exception:
+        pass
+    return _has_quant_py(e)
+
+
+def _has_quant_py(e):
     seen = set()
     stack = [e]
     while stack:
@@ -168,6 +186,7 @@ class Path:
         self.qf = z3.Solver()          # quantifier-free part of the path condition (feasibility pre-check)
         self.qf.set("timeout", 2000)
         self.pc = []
+        self.pc_has_quant = False
         self.counter = 0
         self.solver_s = 0.0
         self.ended = None
@@ -192,6 +211,8 @@ class Path:
         self.pc.append(phi)
         if not _has_quant(phi):
             self.qf.add(phi)
+        else:
+            self.pc_has_quant = True
 
     def _check(self, extra):
         # identical (pc, goal) pairs recur because every path re-executes the common prefix; z3 terms are
@@ -253,6 +274,8 @@ class Path:
                 self.qf.pop()
                 if r == z3.unsat:
                     return False
+                if r == z3.sat and not self.pc_has_quant:
+                    return True      # the whole path condition is quantifier free: the incremental answer is final
             s = z3.Solver()
             if getattr(self.ver, "feas_rlimit", None):
                 # a contract-specific feasibility budget is a deterministic z3 resource limit, not a wall-clock timeout:
@@ -337,6 +360,69 @@ class Path:
             self.assume(assume_form)
         return ok
 
+    def _sliced_prove(self, p):
+        """retries after an `unknown` on *subsets* of the hypotheses (sound: hypotheses are only dropped):
+        rel1 / rel2 = the quantified facts that share an uninterpreted function or array symbol with the goal
+        (directly / through one intermediate fact), sliced = without the multi-variable quantified facts; finally
+        the full set under another random seed.  z3's quantifier instantiation is chaotic on goals whose context
+        holds several axiom families (comprehension + permutation + order facts) that the goal does not need."""
+        if _os.environ.get("PYVC_NO_SLICE"):
+            return False
+
+        def syms(f):
+            out, seen, st = set(), set(), [f]
+            while st:
+                x = st.pop()
+                if x.get_id() in seen:
+                    continue
+                seen.add(x.get_id())
+                if z3.is_quantifier(x):
+                    st.append(x.body())
+                elif z3.is_app(x):
+                    d = x.decl()
+                    if d.kind() == z3.Z3_OP_UNINTERPRETED and (x.num_args() > 0 or z3.is_array(x)):
+                        out.add(d.name())
+                    st.extend(x.children())
+            return out
+
+        quant = [(f, syms(f)) for f in self.pc if _has_quant(f)]
+        plain = [f for f in self.pc if not _has_quant(f)]
+        g0 = syms(p)
+        rel1 = [f for f, sy in quant if sy & g0]
+        g1 = set(g0)
+        for f, sy in quant:
+            if sy & g0:
+                g1 |= sy
+        rel2 = [f for f, sy in quant if sy & g1]
+        keep = [f for f in self.pc if not (z3.is_quantifier(f) and f.is_forall() and f.num_vars() >= 2)]
+        plans = []
+        if len(rel1) < len(quant):
+            plans.append(("rel1", plain + rel1, 0))
+        if len(keep) != len(self.pc):
+            plans.append(("sliced", keep, 0))
+        if len(rel1) < len(rel2) < len(quant):
+            plans.append(("rel2", plain + rel2, 0))
+        plans.append(("seed1", self.pc, 1))
+        for tag, hyps, seed in plans:
+            t0 = time.time()
+            s = z3.Solver()
+            s.set("timeout", max(2000, self.ver.timeout_ms // 2))
+            if seed:
+                s.set("random_seed", seed)
+            for f in hyps:
+                s.add(f)
+            s.add(z3.Not(p))
+            r = s.check()
+            dt = time.time() - t0
+            self.solver_s += dt
+            self.ver.solver_s += dt
+            self.ver.queries += 1
+            if TRACE:
+                print("   [retry %s %.2fs %s]" % (tag, dt, r))
+            if r == z3.unsat:
+                return True
+        return False
+
     def prove1(self, phi, name, kind="assert", where=""):
         """obligation: pc => phi.  Records the verdict, then assumes phi."""
         self.ver.obligation_sites.add(name)
@@ -385,16 +471,23 @@ class Path:
             self.ver.record(Obligation(name, kind, "failed", detail=str(p)[:2000], model=str(m)[:4000], inputs=inputs,
                                        path=list(self.taken), seconds=dt, where=where))
         else:
-            # unknown: try the fallback portfolio on the dumped goal
-            ok, backend = self.ver.fallback_prove(self.pc, p)
+            # unknown: first retry on a *subset* of the hypotheses (sound: dropping hypotheses can only lose proofs):
+            # without the multi-variable quantified facts (order / distinctness axioms), whose instantiation
+            # often drowns goals that do not need them; then the fallback portfolio on the dumped goal
+            ok, backend = self._sliced_prove(p), "z3-sliced"
+            if not ok:
+                ok, backend = self.ver.fallback_prove(self.pc, p)
             if ok:
                 self.ver.record(Obligation(name, kind, "proved", path=list(self.taken), seconds=time.time() - t0,
                                            backend=backend, where=where))
-                self.assume(p)
+                if kind != "post" and not getattr(self, "_no_assume", False):
+                    self.assume(p)
                 return True
             self.ver.record(Obligation(name, kind, "unknown", detail=getattr(self, "last_reason", "") + " :: " + str(p)[:1500],
                                        path=list(self.taken), seconds=dt, where=where))
-        self.assume(p)
+        if kind != "post":
+            # postconditions are never hypotheses of later obligations (a refuted / undecided one even less)
+            self.assume(p)
         return False
 
 
